@@ -590,7 +590,7 @@ def _forest_of(c: Ctx, new_tree, src_start):
             s = c.b.nodes[i]
             if cp.data is not s.data or cp is s:
                 flags["faithful"] = False
-            if getattr(cp, "kind", None) != getattr(s, "kind", None):
+            if c.b.fl.kind_id(cp) != c.b.fl.kind_id(s):   # not getattr: forward_attrs trees forward `kind` to the data
                 flags["kinds"] = False
             out.append([i, walk(cp.children, kids_of(i), cp, i)])
         return out
@@ -947,7 +947,7 @@ def obs_c07(c: Ctx):
                 def children_into_populated(nd=nd, g=g):
                     t2 = type(tree)("target")
                     gn = c.b.nodes[g]
-                    kw = {"kind": gn.kind} if hasattr(gn, "kind") else {}
+                    kw = {"kind": gn.kind} if fl.typed else {}
                     pre = t2.add(gn.data, data_id=gn.data_id, **kw)
                     nd.copy_to(t2, add_self=False, deep=True)
                     if t2.children[0] is not pre:
